@@ -155,6 +155,13 @@ def r1(ctx):
                 "whose re-raise depends on `not _SWALLOW_ADDON_EXCEPTIONS`; every handle_* entry point reaches "
                 "hooks only via _call_all_addon_hooks -> _call_module_hooks -> _try_call_hook")
     am = repo.cls("AddonManager", ADDONS)
+    am_family = {c.qual for c in repo.mro(am)}      # AddonManager and the base classes its dispatch code may live in
+
+    def in_family(f):
+        return f.cls is not None and f.cls.qual in am_family
+    am_methods = {}
+    for c_ in reversed(repo.mro(am)):
+        am_methods.update(c_.methods)
     tch = repo.fn("AddonManager._try_call_hook")
     cmh = repo.fn("AddonManager._call_module_hooks")
     cah = repo.fn("AddonManager._call_all_addon_hooks")
@@ -215,10 +222,10 @@ def r1(ctx):
     while work:
         dname = work.pop()
         argi = dispatchers[dname]
-        dfn = am.methods.get(dname)
+        dfn = am_methods.get(dname)
         dparams = [a.arg for a in dfn.node.args.args][1:] if dfn is not None else []
         for f, c in call_index(repo).get(dname, []):
-            inside = f.cls is not None and f.cls == am
+            inside = in_family(f)
             ctx.ob(R, f"{f.qual}: {dname} called from inside AddonManager", inside, ctx.w(f, c),
                    "hook dispatch primitive used outside AddonManager")
             if dname == "_try_call_hook":
@@ -247,7 +254,7 @@ def r1(ctx):
     ctx.ob(R, "_call_module_hooks dispatches through cls._try_call_hook",
            any(ap(c.func) == "cls._try_call_hook" for c in calls(cmh.node)), cmh.where)
 
-    entries = [f for n, f in am.methods.items() if n.startswith("handle_")]
+    entries = [f for n, f in sorted(am_methods.items()) if n.startswith("handle_")]
     ctx.floor(R, "handle_* entry points", len(entries), 13)
     for f in entries:
         reach = class_methods_reachable(repo, f, depth=3)
@@ -258,7 +265,7 @@ def r1(ctx):
     # -- bookkeeping that runs unguarded on the packet path (reload checks etc. reachable from the entry points)
     #    must not fail on a missing key: an exception there skips every hook, the logger and the forward
     dict_attrs = set()
-    for st in am.node.body:
+    for st in [st for c_ in repo.mro(am) for st in c_.node.body]:
         tgt = st.targets[0] if isinstance(st, ast.Assign) and len(st.targets) == 1 else \
             st.target if isinstance(st, ast.AnnAssign) else None
         if not isinstance(tgt, ast.Name):
@@ -271,7 +278,7 @@ def r1(ctx):
     pre = []
     for f in entries:
         for g in class_methods_reachable(repo, f, depth=3):
-            if g not in pre and g.cls is not None and g.cls == am:
+            if g not in pre and in_family(g):
                 pre.append(g)
 
     def is_table(e):
@@ -312,12 +319,12 @@ def r1(ctx):
     for f in entries:
         for c in calls(f.node, into_defs=False):
             if isinstance(c.func, ast.Attribute) and ap(c.func.value) == "cls" and not try_contexts(c, f.node):
-                g = am.methods.get(c.func.attr)
+                g = am_methods.get(c.func.attr)
                 if g is not None and g.qual not in chain and g not in entries and g.name not in dispatchers:
                     bare.setdefault(g.name, []).append((f, c))
     n_raise = 0
     for gname, sites in sorted(bare.items()):
-        g = am.methods[gname]
+        g = am_methods[gname]
         gparams = [a.arg for a in g.node.args.args][1:]
         defaults = dict(zip(reversed(gparams), reversed(g.node.args.defaults)))
         for a, d in zip(g.node.args.kwonlyargs, g.node.args.kw_defaults):
@@ -355,8 +362,7 @@ def r1(ctx):
     n_sites = 0
     idx = call_index(repo)
 
-    def in_am(f):
-        return f.cls is not None and f.cls == am
+    in_am = in_family
     for f, c in idx.get("getattr", []):
         if ap(c.func) != "getattr" or len(c.args) < 2:
             continue
@@ -942,7 +948,7 @@ def r5(ctx):
                 "send (after a truthy prepare_message) / resend_unacked; sendto only inside send_packet")
     for callee, owners in WIRE_OWNERS.items():
         cs = call_index(repo).get(callee, [])
-        ctx.floor(R, f"{callee} call sites", len(cs), 2)
+        ctx.floor(R, f"{callee} call sites", len(cs), 1)
         for f, c in cs:
             ctx.ob(R, f"{f.qual}: {norm(c.func)}(...) by an owner of {callee}", f.qual in owners, ctx.w(f, c),
                    f"{callee} called outside {sorted(owners)}: a second road to the wire bypasses the finalized guard")
@@ -1005,28 +1011,39 @@ MH = "hippolyzer/lib/base/message/message_handler.py"
 def r8(ctx):
     repo = ctx.repo
     R = "C07.R8"
-    ctx.rule(R, "MessageHandler: a taking subscriber (its body calls .take()) registered on several notifiers is "
-                "removed from every one of them - by a loop over the same notifier collection on every normal "
-                "path of the subscriber itself, or in a finally of the registering method (one-shot / truthy-return "
-                "unsubscription only removes it from the Event that fired)")
+    ctx.rule(R, "MessageHandler: a taking subscriber (its body calls .take(); a closure or an instance of a callable "
+                "class) registered on several notifiers is removed from every one of them - by a loop over the same "
+                "notifier collection on every normal path of the subscriber itself, or in a finally of the registering "
+                "method (one-shot / truthy-return unsubscription only removes it from the Event that fired)")
     from .common import inlined_funcinfo
     mh = repo.cls("MessageHandler", MH)
     found = 0
     for name, m0 in sorted(mh.methods.items()):
         m = inlined_funcinfo(repo, m0)
+        # candidate subscribers: (name it is referred to by in m, body, how the body refers to itself, ctor call or None)
+        cands = []
         for h in [d for d in walk(m.node, into_defs=True) if isinstance(d, FUNC_TYPES) and d is not m.node]:
-            if not any(call_attr(c) == "take" and not c.args for c in calls(h)):
+            cands.append((h.name, h, h.name, None))
+        for st in stores(m.node, into_defs=False):
+            if st.kind == "assign" and isinstance(st.target, ast.Name) and isinstance(st.value, ast.Call):
+                ci = repo.resolve_class(ap(st.value.func) or "", m.module)
+                call_m = repo.lookup_method(ci, "__call__") if ci is not None else None
+                if call_m is not None:
+                    selfname = call_m.node.args.args[0].arg if call_m.node.args.args else "self"
+                    cands.append((st.path, call_m.node, selfname, (ci, st.value)))
+        for ref, body, selfref, ctor in cands:
+            if not any(call_attr(c) == "take" and not c.args for c in calls(body)):
                 continue
-            # where is h registered?
+            # where is it registered?
             colls = set()
             for loop in [l for l in walk(m.node) if isinstance(l, (ast.For, ast.AsyncFor)) and isinstance(l.iter, ast.Name)]:
                 lv = ap(loop.target)
                 for c in find_calls(loop, "subscribe", into_defs=False):
-                    if c.args and ap(c.args[0]) == h.name and isinstance(c.func, ast.Attribute) and ap(c.func.value) == lv:
+                    if c.args and ap(c.args[0]) == ref and isinstance(c.func, ast.Attribute) and ap(c.func.value) == lv:
                         colls.add(loop.iter.id)
             for st in stores(m.node, into_defs=False):
                 if st.kind == "assign" and isinstance(st.target, ast.Name) and isinstance(st.value, ast.Call) and \
-                        any(ap(a) == h.name for a in st.value.args) and "subscribe" in (call_attr(st.value) or ""):
+                        any(ap(a) == ref for a in st.value.args) and "subscribe" in (call_attr(st.value) or ""):
                     colls.add(st.path)   # notifiers = self._subscribe_all(names, handler, ...)
             if not colls:
                 continue
@@ -1036,32 +1053,126 @@ def r8(ctx):
                             and st.value.id in colls:
                         colls.add(st.path)
             found += 1
+            # the collection as the subscriber's own body sees it
+            inner_colls = set(colls)
+            if ctor is not None:
+                ci, call = ctor
+                inner_colls = set()
+                init = repo.lookup_method(ci, "__init__")
+                if init is not None:
+                    iparams = [a.arg for a in init.node.args.args][1:]
+                    bound = dict(zip(iparams, [ap(a) for a in call.args]))
+                    bound.update({k.arg: ap(k.value) for k in call.keywords if k.arg})
+                    isel = init.node.args.args[0].arg
+                    for st in stores(init.node, into_defs=False):
+                        if st.kind == "assign" and st.path.startswith(isel + ".") and isinstance(st.value, ast.Name) \
+                                and bound.get(st.value.id) in colls:
+                            inner_colls.add(selfref + "." + st.path.split(".", 1)[1])
 
-            def unsub_loops(root, into):
+            def unsub_loops(root, who, names):
                 out = []
-                for loop in [l for l in walk(root, into_defs=into) if isinstance(l, (ast.For, ast.AsyncFor))]:
-                    if isinstance(loop.iter, ast.Name) and loop.iter.id in colls:
+                for loop in [l for l in walk(root, into_defs=False) if isinstance(l, (ast.For, ast.AsyncFor))]:
+                    if ap(loop.iter) in names:
                         lv = ap(loop.target)
-                        if any(c.args and ap(c.args[0]) == h.name and isinstance(c.func, ast.Attribute)
+                        if any(c.args and ap(c.args[0]) == who and isinstance(c.func, ast.Attribute)
                                and ap(c.func.value) == lv for c in find_calls(loop, "unsubscribe", into_defs=False)):
                             out.append(loop)
                 return out
             # (a) inside the subscriber, on every normal path
             ok_a = False
-            inner = unsub_loops(h, False)
+            inner = unsub_loops(body, selfref, inner_colls)
             if inner:
-                hcfg = CFG(h)
+                hcfg = CFG(body)
                 pn = {n for n in hcfg.nodes if n.kind == "loop" and any(n.ast is l for l in inner)}
                 ok_a = cfg_search(hcfg, [hcfg.entry], target=lambda n: n is hcfg.exit, avoid=lambda n: n in pn,
                                   follow_exc=lambda n: False) is None
             # (b) in a finally of the registering method
             ok_b = any(any(isinstance(a, ast.Try) and any(l is s_ or any(l is x for x in ast.walk(s_)) for s_ in a.finalbody)
-                           for a in ancestors(l)) for l in unsub_loops(m.node, False))
-            ctx.ob(R, f"{m.qual}: taking subscriber {h.name} is removed from every notifier it was registered on",
-                   ok_a or ok_b, ctx.w(m, h),
+                           for a in ancestors(l)) for l in unsub_loops(m.node, ref, colls))
+            ctx.ob(R, f"{m.qual}: taking subscriber {ref} is removed from every notifier it was registered on",
+                   ok_a or ok_b, ctx.w(m, body if ctor is None else ctor[1]),
                    "the subscriber stays registered under the other message names: it keeps take()ing messages / flows "
                    "that nobody consumes (never forwarded, never handed back)")
     ctx.floor(R, "taking subscribers registered on several notifiers", found, 2)
+
+
+# --------------------------------------------------------------------------- R9
+
+def r9(ctx):
+    repo = ctx.repo
+    R = "C07.R9"
+    ctx.rule(R, "AddonManager.handle_lludp_message: a claim the manager makes itself (`return <truthy constant>`, i.e. not "
+                "a hook's verdict) is reached only after drop_message(message) - on every path, exceptional ones "
+                "included; otherwise the tail of handle_proxied_packet neither sends nor drops/acks the message")
+    f = repo.fn("AddonManager.handle_lludp_message")
+    params = [a.arg for a in f.node.args.args]
+    ctx.require(len(params) >= 2, f"{R}: handle_lludp_message lost its parameters")
+    msg = params[-1]
+    cfg = CFG(f.node)
+    drops = {n for n in cfg.nodes for c in cfg_node_calls(cfg, n) if call_attr(c) == "drop_message" and c.args and ap(c.args[0]) == msg}
+    rets = [n for n in cfg.nodes if n.kind == "stmt" and isinstance(n.ast, ast.Return) and isinstance(n.ast.value, ast.Constant)
+            and n.ast.value.value]
+    ctx.floor(R, "own claims (return <truthy constant>)", len({id(n.ast) for n in rets}), 1)
+    loops = [l for l in walk(f.node) if isinstance(l, (ast.For, ast.AsyncFor))]
+    seen_keys = set()
+    for r in rets:
+        if id(r.ast) in seen_keys:
+            continue
+        seen_keys.add(id(r.ast))
+        flags = {e.id for e, pol in facts(r.ast, f.node) if isinstance(e, ast.Name) and pol}
+        # a local flag that was cleared cannot let the return through any more
+        kill = {n for n in cfg.nodes if n.kind == "stmt" and isinstance(n.ast, ast.Assign) and len(n.ast.targets) == 1
+                and isinstance(n.ast.targets[0], ast.Name) and n.ast.targets[0].id in flags
+                and isinstance(n.ast.value, ast.Constant) and not n.ast.value.value}
+        # loops that are known to run at least once when the return is reached: the claim is conditional on the
+        # iterated list being non-empty, directly or through a flag initialised from bool(list) / len(list)
+        nonempty_names = set(flags)
+        for st in stores(f.node, into_defs=False):
+            if st.kind == "assign" and st.path in flags and st.value is not None and not isinstance(st.value, ast.Constant):
+                nonempty_names |= {x.id for x in ast.walk(st.value) if isinstance(x, ast.Name)}
+        must_enter = {id(l): l for l in loops if isinstance(l.iter, ast.Name) and l.iter.id in nonempty_names}
+        body_ids = {lid: {id(x) for st in l.body for x in ast.walk(st)} for lid, l in must_enter.items()}
+        from collections import deque
+        start = (cfg.entry, frozenset())
+        prev = {start: None}
+        dq = deque([start])
+        hit = None
+        while dq and hit is None:
+            n, entered = dq.popleft()
+            succs = list(n.succs) + (list(n.exc_succs) if cfg_node_fallible(cfg, n) else [])
+            for t in succs:
+                if t in drops or t in kill:
+                    continue
+                ent = entered
+                if n.kind == "loop" and n.ast is not None and id(n.ast) in must_enter:
+                    in_body = t.ast is not None and id(t.ast) in body_ids[id(n.ast)]
+                    if in_body:
+                        ent = entered | {id(n.ast)}
+                    elif id(n.ast) not in entered:
+                        continue      # leaving a loop that is known to iterate at least once without entering it
+                st_ = (t, ent)
+                if st_ in prev:
+                    continue
+                prev[st_] = (n, entered)
+                if t is r:
+                    hit = st_
+                    break
+                dq.append(st_)
+        path = None
+        if hit is not None:
+            path, cur = [], hit
+            while cur is not None:
+                path.append(cur[0])
+                cur = prev[cur]
+            path.reverse()
+        cond = "-"
+        for a in ancestors(r.ast):
+            if isinstance(a, ast.If):
+                cond = norm(a.test)
+                break
+        ctx.ob(R, f"{f.qual}: `{norm(r.ast)}` under [{cond}] only after {msg} was dropped", path is None, ctx.w(f, r.ast),
+               "the message is claimed (truthy return) on a path that never drops it: handle_proxied_packet returns "
+               "without sending, dropping or acking it", cfg.describe_path(path) if path else None)
 
 
 r4 = r6 = r4_r6
@@ -1069,6 +1180,7 @@ r4 = r6 = r4_r6
 
 def run(ctx):
     r8(ctx)
+    r9(ctx)
     r1(ctx)
     r2(ctx)
     r3(ctx)
